@@ -641,6 +641,35 @@ func runC08Channel(c C08Case, cd wire.Codec, dec netty.InboundHandler, cls *core
 				return out
 			}
 		}
+		// a stream that was well-formed up to the point where the transport failed: the exception that ends the channel
+		// is the transport's error (possibly wrapped), not a substitute that hides what happened
+		if c.End == "err" {
+			wellFormed, q := true, 0
+			for q < len(c.Stream) {
+				st := cd.RefDecode(c.Stream[q:], false)
+				if st.Status == wire.OK && st.Consumed > 0 {
+					q += st.Consumed
+					continue
+				}
+				// the transport fails inside a frame body (or between the bytes of a fixed-length frame): the header said
+				// what to expect, only the transport is to blame
+				wellFormed = st.Status == wire.Truncated && (st.Why == "body incomplete" || st.Why == "fixed frame incomplete" || st.Why == "delimiter missing")
+				break
+			}
+			if exs := rig.exceptions(); wellFormed && len(exs) > 0 {
+				found := false
+				for _, ex := range exs {
+					if errors.Is(ex, wire.ErrStream) {
+						found = true
+					}
+				}
+				if !found {
+					out.Violation = core.Viol("C08/read-error-replaced:"+cd.Kind, "channel layer: the transport read failed with %q inside a well-formed stream, but the exceptions raised are %v: the decoder replaced the transport's error", wire.ErrStream, exs)
+					return out
+				}
+				cls.Add("transport-error-reported-as-is")
+			}
+		}
 	}
 	return out
 }
